@@ -21,6 +21,7 @@ type Thread struct {
 	lockDepth int       // mutexes currently held (coarse scheduling: no preemption while > 0)
 	wg      *sync.WaitGroup
 	panicV  interface{}
+	gate    int // >= 0: created by verif_GoGate, index in creation order; -1 otherwise
 }
 
 type syncState struct {
@@ -261,12 +262,15 @@ func (e *Engine) Spawn(name string, f func(t *Thread)) *Thread {
 	if DebugForks {
 		fmt.Printf("SPAWN %s from %s\n", name, e.lastFn)
 	}
-	t := &Thread{id: len(e.threads), name: name, e: e, wake: make(chan struct{}, 1)}
+	t := &Thread{id: len(e.threads), name: name, e: e, wake: make(chan struct{}, 1), gate: -1}
 	e.threads = append(e.threads, t)
 	parent := e.cur
 	go func() {
 		<-t.wake
 		t.started = true
+		if t.gate >= 0 && !e.aborting {
+			e.gateOrder = append(e.gateOrder, t.gate)
+		}
 		if e.aborting {
 			t.done = true
 			parent.e.threadGone(t)
